@@ -37,7 +37,7 @@ import (
 type c17LLIn struct {
 	Init uint32    `json:"init"`
 	M    int64     `json:"M"`
-	Ops  [][]int64 `json:"ops"` // [0] Accept | [1] Offer conn | [2] Offer error | [3,i] Close conn i | [4,n] SetMaxConnection(n)
+	Ops  [][]int64 `json:"ops"` // [0] Accept | [1] Offer conn | [2] Offer permanent error | [3,i] Close conn i | [4,n] SetMaxConnection(n) | [5] Offer temporary error (net.Error)
 }
 
 type c17LLStep struct {
@@ -81,9 +81,17 @@ type c17Item struct {
 	err  error
 }
 
+// c17TempErr is a transient accept failure (ECONNABORTED, EMFILE, ...): a net.Error with Temporary() = true.
+type c17TempErr struct{}
+
+func (c17TempErr) Error() string   { return "c17: transient accept failure" }
+func (c17TempErr) Timeout() bool   { return false }
+func (c17TempErr) Temporary() bool { return true }
+
 type c17Inner struct {
 	ch     chan c17Item
-	calls  int64 // inner Accept entered (the caller holds a permit)
+	calls  int64 // inner Accept entered
+	rets   int64 // inner Accept handed an item (connection or error) to its caller
 	closed int64
 }
 
@@ -93,6 +101,7 @@ func (l *c17Inner) Accept() (net.Conn, error) {
 	if !ok {
 		return nil, errors.New("c17: inner listener closed")
 	}
+	atomic.AddInt64(&l.rets, 1)
 	if it.err != nil {
 		return nil, it.err
 	}
@@ -181,13 +190,17 @@ func (r *c17LLRun) sync(push byte) {
 	}
 	// every acceptor that is not queued has been granted a permit: it enters the inner Accept
 	qa := int64(bytes.Count(r.shadow, []byte{'A'}))
-	if !c17LLPoll(func() bool { return atomic.LoadInt64(&r.inner.calls) == r.started-qa }) {
+	// (counted at the inner listener itself, so that an Accept that silently retries the inner
+	// Accept after an error is seen for what it is: a caller inside the inner Accept)
+	if !c17LLPoll(func() bool {
+		return r.holders() == r.started-qa-atomic.LoadInt64(&r.retOK)-atomic.LoadInt64(&r.retErr)
+	}) {
 		r.desync = true
 	}
 }
 
 func (r *c17LLRun) holders() int64 {
-	return atomic.LoadInt64(&r.inner.calls) - atomic.LoadInt64(&r.retOK) - atomic.LoadInt64(&r.retErr)
+	return atomic.LoadInt64(&r.inner.calls) - atomic.LoadInt64(&r.inner.rets)
 }
 
 // settle hands pending offers to acceptors waiting inside the inner Accept
@@ -196,13 +209,19 @@ func (r *c17LLRun) settle() {
 		it := r.offers[0]
 		r.offers = r.offers[1:]
 		before := atomic.LoadInt64(&r.retOK) + atomic.LoadInt64(&r.retErr)
+		callsBefore := atomic.LoadInt64(&r.inner.calls)
 		select {
 		case r.inner.ch <- it:
 		case <-time.After(time.Duration(atomic.LoadInt64(&c17LLTimeout))):
 			r.desync = true
 			return
 		}
-		if !c17LLPoll(func() bool { return atomic.LoadInt64(&r.retOK)+atomic.LoadInt64(&r.retErr) == before+1 }) {
+		// the acceptor either returns from Accept, or (an implementation that retries after an
+		// error) is back inside the inner Accept
+		if !c17LLPoll(func() bool {
+			return atomic.LoadInt64(&r.retOK)+atomic.LoadInt64(&r.retErr) == before+1 ||
+				(it.err != nil && atomic.LoadInt64(&r.inner.calls) == callsBefore+1)
+		}) {
 			r.desync = true
 			return
 		}
@@ -215,7 +234,7 @@ func (r *c17LLRun) settle() {
 
 func (r *c17LLRun) step() c17LLStep {
 	st := c17LLStep{Cur: r.snap.Cur, Real: r.snap.Real, Wq: r.snap.Waiters, Held: r.holders(),
-		Blocked: r.started - atomic.LoadInt64(&r.inner.calls), Panics: r.panics + atomic.LoadInt64(&r.apanics), Open: []int64{},
+		Blocked: r.started - atomic.LoadInt64(&r.retOK) - atomic.LoadInt64(&r.retErr) - r.holders(), Panics: r.panics + atomic.LoadInt64(&r.apanics), Open: []int64{},
 		Shr: int64(bytes.Count(r.shadow, []byte{'S'}))}
 	r.mu.Lock()
 	for id := range r.conns {
@@ -282,6 +301,8 @@ func c17LLExec(in c17LLIn) (obs c17LLObs) {
 			r.offers = append(r.offers, c17Item{conn: ic})
 		case 2:
 			r.offers = append(r.offers, c17Item{err: errors.New("c17: inner accept error")})
+		case 5:
+			r.offers = append(r.offers, c17Item{err: c17TempErr{}})
 		case 3:
 			r.mu.Lock()
 			c := r.conns[op[1]]
@@ -372,11 +393,20 @@ func c17LLGen(r *vfRand, adv bool) c17LLIn {
 		switch x := r.Intn(20); {
 		case x < 6:
 			in.Ops = append(in.Ops, []int64{0})
+			if adv && r.Chance(1, 3) {
+				// transient failure right after a fresh acceptor, then a connection for it
+				in.Ops = append(in.Ops, []int64{5}, []int64{1})
+				offered++
+			}
 		case x < 11:
 			in.Ops = append(in.Ops, []int64{1})
 			offered++
 		case x < 12:
-			in.Ops = append(in.Ops, []int64{2})
+			if r.Bool() {
+				in.Ops = append(in.Ops, []int64{5})
+			} else {
+				in.Ops = append(in.Ops, []int64{2})
+			}
 		case x < 16:
 			// close: mostly an existing connection, sometimes twice, sometimes one never accepted
 			id := int64(r.Intn(int(offered) + 1))
@@ -421,6 +451,7 @@ type c17StormIn struct {
 	Workers  int     `json:"workers"`  // goroutines closing accepted connections
 	PerPhase int     `json:"perPhase"` // connections offered per phase
 	Seed     int     `json:"seed"`
+	TempErrs bool    `json:"tempErrs"` // the inner listener fails transiently now and then
 }
 
 type c17StormObs struct {
@@ -452,6 +483,9 @@ func c17StormExec(in c17StormIn) (obs c17StormObs) {
 		for {
 			c, err := ll.Accept()
 			if err != nil {
+				if ne, ok := err.(net.Error); ok && ne.Temporary() {
+					continue // what net/http.Server.Serve does (after a pause)
+				}
 				return
 			}
 			// the permit is held from before Accept returned until Close is called below:
@@ -517,7 +551,16 @@ func c17StormExec(in c17StormIn) (obs c17StormObs) {
 			obs.Desync = true
 		}
 		atomic.StoreInt64(&maxOpen, atomic.LoadInt64(&open))
+		er := root.Fork(1000 + p)
 		for i := 0; i < in.PerPhase; i++ {
+			if in.TempErrs && er.Chance(1, 8) {
+				// a transient accept failure between two connections
+				select {
+				case inner.ch <- c17Item{err: c17TempErr{}}:
+				case <-time.After(time.Duration(atomic.LoadInt64(&c17LLTimeout))):
+					obs.Desync = true
+				}
+			}
 			select {
 			case inner.ch <- c17Item{conn: &c17Conn{id: id}}:
 			case <-time.After(time.Duration(atomic.LoadInt64(&c17LLTimeout))):
@@ -581,7 +624,7 @@ func TestVerifC17LL(t *testing.T) {
 	if vfTier() == "thorough" {
 		for i := 0; i < 24; i++ {
 			r := root.Fork(200000 + i)
-			in := c17StormIn{Workers: r.PickInt(2, 4, 8, 16, 32), PerPhase: r.PickInt(200, 500, 1000), Seed: r.Intn(1 << 30)}
+			in := c17StormIn{Workers: r.PickInt(2, 4, 8, 16, 32), PerPhase: r.PickInt(200, 500, 1000), Seed: r.Intn(1 << 30), TempErrs: i%2 == 1}
 			for p := r.Range(1, 4); p > 0; p-- {
 				in.Caps = append(in.Caps, int64(r.PickInt(1, 2, 3, 5, 8, 16)))
 			}
